@@ -43,10 +43,34 @@ func genC08(t *rapid.T) C08Case {
 		sp.Enc = h.KeyCfg{Mode: "tls", Field: h.CertRef{Key: "E1", Window: "wide"}}
 	}
 	g := h.GenGenuine(sp, signers, h.ModelOpts{Text: txt, AttrText: atxt}, true).Draw(t, "issue")
+	if rapid.IntRange(0, 9).Draw(t, "bigGroupList") == 0 {
+		// a long multi-valued attribute (group memberships): several hundred elements, still below the
+		// dependency's 1000-element traversal budget
+		n := rapid.IntRange(200, 700).Draw(t, "nGroups")
+		vals := make([]string, n)
+		for i := range vals {
+			vals[i] = fmt.Sprintf("cn=group-%04d,ou=groups,dc=example,dc=com", i)
+		}
+		a := &g.Model.Assertions[rapid.IntRange(0, len(g.Model.Assertions)-1).Draw(t, "bigIn")]
+		a.Attrs = append(a.Attrs, h.AttrModel{Name: "memberOf-large-list", Values: vals})
+	}
 	c := C08Case{SP: sp, Issue: g}
 	root, err := g.Tree()
 	if err != nil {
 		t.Fatalf("harness: cannot issue: %v", err)
+	}
+	if n := len(root.FindElements("//*")); n > 940 {
+		// keep genuine messages below goxmldsig's 1000-element traversal budget (documented assumption)
+		for i := range g.Model.Assertions {
+			for j := range g.Model.Assertions[i].Attrs {
+				if at := &g.Model.Assertions[i].Attrs[j]; len(at.Values) >= 200 {
+					at.Values = at.Values[:len(at.Values)-(n-940)]
+				}
+			}
+		}
+		if root, err = g.Tree(); err != nil {
+			t.Fatalf("harness: cannot issue: %v", err)
+		}
 	}
 	l := g.Layout
 	l.AllowComments = g.AllowsComments()
@@ -215,6 +239,13 @@ func checkC08(c C08Case) h.Outcome {
 	}
 	if len(c.Issue.Enc) > 0 {
 		o.Classes = append(o.Classes, "encrypted")
+	}
+	for _, a := range m.Assertions {
+		for _, at := range a.Attrs {
+			if len(at.Values) >= 200 {
+				o.Classes = append(o.Classes, "large-attribute-list")
+			}
+		}
 	}
 	if c.Issue.Pres.Deflate {
 		o.Classes = append(o.Classes, "deflate")
